@@ -102,10 +102,12 @@ CheckTxn(e, db) ==
                "reference index differs from the one recomputed from the rows",
                [extra |-> RefsJ(e.refs) \ RefIndex(post), missing |-> RefIndex(post) \ RefsJ(e.refs)])
     ELSE
+        /\ Chk(e.commitErr = "", "C02", "the engine failed after or while executing the operations (commit error or panic)",
+               [error |-> e.commitErr])
         /\ Chk(post = db, "C02", "failed transaction changed the database", [rows |-> DiffRows(post, db)])
         /\ Chk(RefsJ(e.refs) = RefIndex(post), "C02", "failed transaction changed the reference index",
                [extra |-> RefsJ(e.refs) \ RefIndex(post), missing |-> RefIndex(post) \ RefsJ(e.refs)])
-        /\ Chk(ShapeOK(e), "C02", "reply of a failed transaction has the wrong shape",
+        /\ Chk(e.commitErr # "" \/ ShapeOK(e), "C02", "reply of a failed transaction has the wrong shape",
                [errIdx |-> e.errIdx, n |-> Len(e.results), ops |-> Len(e.ops)])
         /\ IF r.ok
            THEN IF e.errKind = "index"
